@@ -187,6 +187,17 @@ def run_case(ck, desc):
             )
             ck.count("compressibility_checked_below_pb")
             _cmp(ck, "co==(Bg-dBo/dRs)*dRs/dp/Bob", c, want, desc, {"p": p, "pb": pb, "Bg": bg}, tol=1e-11)
+        # the same with the caller's own standard conditions (metric base 15 C / 14.696 psia, 0 C, ...)
+        for Tstd, pstd in ((59.0, 14.696), (32.0, 14.65), (68.0, 15.025)):
+            c2 = float(oil.oil_compressibility_Standing(T, p, api, gg, gor, Tpc, ppc, Tstd, pstd))
+            if p >= pb:
+                if c2 != float(oil.oil_compressibility_undersat_Spivey(T, p, api, gg, gor)):
+                    ck.violation("co==undersaturated-at-or-above-pb", {"standard_conditions": [Tstd, pstd]}, desc)
+            else:
+                bg2 = float(gas.b_factor_DAK(T, p, Tpc, ppc, Tstd, pstd))
+                rs2 = float(oil.solution_gor_Standing(T, p, api, gg, gor))
+                want2 = (bg2 - float(oil.db_o_dgor_Standing(T, api, gg, rs2))) * float(oil.dgor_dpressure_Standing(T, p, api, gg, gor)) / float(oil.b_o_bubblepoint_Standing(T, api, gg, gor))
+                _cmp(ck, "co==(Bg-dBo/dRs)*dRs/dp/Bob (caller's standard conditions)", c2, want2, desc, {"p": p, "standard_conditions": [Tstd, pstd]}, tol=1e-11)
     ck.count("states")
     return nonzero > 0, {"p": p, "pb": pb, "where": desc["where"], "nonzero_dual_parts": int(nonzero)}
 
